@@ -74,9 +74,61 @@ fn install_hook() {
     });
 }
 
+// ---- watchdog: code under test that does not return (a hang is data, like a panic, but it cannot be caught: the harness
+// writes what it was running to $OQ3V_HANG_FILE and exits with status 3; the check scripts turn that into a violation)
+thread_local! {
+    static CTX: RefCell<String> = const { RefCell::new(String::new()) };
+}
+static RUNNING: std::sync::Mutex<Option<std::collections::HashMap<std::thread::ThreadId, (std::time::Instant, String)>>> = std::sync::Mutex::new(None);
+static WATCHDOG: Once = Once::new();
+
+/// Remember the input the next `guarded` calls on this thread work on (reported if one of them never returns).
+pub fn note_input(text: &str) {
+    CTX.with(|c| {
+        let mut c = c.borrow_mut();
+        c.clear();
+        c.push_str(&text.chars().take(2000).collect::<String>());
+    });
+}
+
+fn start_watchdog() {
+    WATCHDOG.call_once(|| {
+        let limit: u64 = std::env::var("OQ3V_HANG_SECS").ok().and_then(|s| s.parse().ok()).unwrap_or(30);
+        std::thread::spawn(move || loop {
+            std::thread::sleep(std::time::Duration::from_millis(250));
+            let hung = {
+                let g = RUNNING.lock().unwrap();
+                g.as_ref().and_then(|m| m.values().find(|(t, _)| t.elapsed().as_secs() >= limit).map(|(t, c)| (t.elapsed().as_secs(), c.clone())))
+            };
+            if let Some((secs, ctx)) = hung {
+                let path = std::env::var("OQ3V_HANG_FILE").unwrap_or_else(|_| "oq3v_hang.json".into());
+                let _ = std::fs::write(&path, serde_json::to_string(&json!({"hang": true, "secs": secs, "input": ctx})).unwrap());
+                eprintln!("oq3v: the code under test did not return within {secs}s; input written to {path}");
+                std::process::exit(3);
+            }
+        });
+    });
+}
+
 /// Run `f`; Ok(result) or Err(panic description as JSON).
 pub fn guarded<T>(f: impl FnOnce() -> T) -> Result<T, Value> {
     install_hook();
+    start_watchdog();
+    let tid = std::thread::current().id();
+    {
+        let ctx = CTX.with(|c| c.borrow().clone());
+        let mut g = RUNNING.lock().unwrap();
+        g.get_or_insert_with(Default::default).insert(tid, (std::time::Instant::now(), ctx));
+    }
+    struct Done(std::thread::ThreadId);
+    impl Drop for Done {
+        fn drop(&mut self) {
+            if let Ok(mut g) = RUNNING.lock() {
+                if let Some(m) = g.as_mut() { m.remove(&self.0); }
+            }
+        }
+    }
+    let _done = Done(tid);
     CAPTURING.with(|c| *c.borrow_mut() = true);
     LAST_PANIC.with(|p| *p.borrow_mut() = None);
     let r = panic::catch_unwind(AssertUnwindSafe(f));
